@@ -450,6 +450,16 @@ func (d *drv) runEip712(r *Rng, n int) {
 	amino := d.suite.EncodingConfig.Amino
 	chainID := d.suite.ChainConstantsConfig.GetCosmosChainID()
 	nDocs := n
+	pbFields := reflectPbFields()
+	aminoKeys := reflectAminoKeys()
+	pbStats, aminoStats := map[string]*fieldStats{}, map[string]*fieldStats{}
+	for _, f := range pbFields {
+		pbStats[f.path] = &fieldStats{}
+	}
+	for _, k := range aminoKeys {
+		aminoStats[k] = &fieldStats{}
+	}
+	defer func() { d.emitFieldCases(pbFields, pbStats, aminoKeys, aminoStats) }()
 	for i := 0; i < nDocs; i++ {
 		rr := r.Fork(uint64(i))
 		priv := newKey(rr)
@@ -508,6 +518,17 @@ func (d *drv) runEip712(r *Rng, n int) {
 		if !d.verifyCase(pub.Key, aminoDoc, sig, "eip712-amino") || !d.verifyCase(pub.Key, protoDoc, sig[:64], "eip712-proto") {
 			d.side.Count("eip712:signature-over-rendering-not-accepted")
 		}
+
+		// ... not for the hash of the rendering offered as a message (a 32-byte candidate must be hashed like any other)
+		for _, cand := range [][]byte{keccak(raw), keccak(aminoDoc)} {
+			if d.verifyCase(pub.Key, cand, sig, "eip712-digest-as-message") {
+				d.side.Hit("C19/crypto/verify/other-message-accepted/hash-of-the-rendering", "a signature over the EIP-712 rendering of a sign document verifies for a 32-byte string that is neither the document nor its rendering",
+					map[string]interface{}{"pk": hx(pub.Key), "doc": string(aminoDoc), "candidate": hx(cand), "sig": hx(sig)})
+			}
+		}
+		// every field of the document, by reflection over the protobuf messages / the legacy structs
+		d.pbFieldSweep(rr, pbFields, pbStats, protoDoc, baseP, sig, pub, signer, tag)
+		d.aminoKeySweep(rr, aminoKeys, aminoStats, aminoDoc, baseA, sig, pub, tag)
 
 		// ... and for no perturbed document.
 		check := func(field, how string, a2, p2 []byte) {
